@@ -27,6 +27,21 @@ BIN_PY = {'add': _op.add, 'sub': _op.sub, 'mul': _op.mul, 'truediv': _op.truediv
           'pow': _op.pow, 'and': _op.and_, 'or': _op.or_, 'xor': _op.xor, 'lshift': _op.lshift, 'rshift': _op.rshift}
 
 
+def error_dunder(interp, dunder):
+    """A comparison dunder defined by the package's error class (identity semantics are assumed otherwise)."""
+    cache = getattr(interp, '_err_dunders', None)
+    if cache is None:
+        cache = interp._err_dunders = {}
+    if dunder not in cache:
+        found = None
+        for m, c in interp.model.find_class('XLError'):
+            lm = interp.model.lookup_method(m, c, dunder)
+            if lm:
+                found = Func(lm[0], lm[2])
+        cache[dunder] = found
+    return cache[dunder]
+
+
 def kind_of(v):
     """Comparison/arithmetic kind of a value: 'num' | 'str' | 'none' | 'err' | 'list' | 'tuple' | 'datetime' | ... | None"""
     t = v.tag
@@ -182,6 +197,16 @@ def rich_compare(interp, name, a, b, text='', pure=False):
             return interp.call(m, [a])
         if name in ('eq', 'ne'):
             return Const(name == 'ne')
+    for x, y, nm in ((a, b, name), (b, a, CMP_REFLECT[name])):
+        if x.tag == 'err' and not pure:
+            meth = error_dunder(interp, CMP_DUNDER[nm])
+            if meth is None and nm == 'ne':
+                eqm = error_dunder(interp, '__eq__')
+                if eqm is not None:
+                    r = interp.call(eqm, [x, y])
+                    return Const(not interp.truth(r, text))
+            if meth is not None:
+                return interp.call(meth, [x, y])
     ka, kb = kind_of(a), kind_of(b)
     if isinstance(a, Const) and isinstance(b, Const):
         try:
@@ -367,6 +392,10 @@ def index_value(interp, base, idx):
         r = base.lookup(idx)
         if r is not None:
             return r
+        if base.default == 'list':
+            r = ListV([])
+            base.store(idx, r)
+            return r
         if isinstance(idx, (Sym, Atom, Top)):
             interp.imprecise('dict lookup with unknown key')
             return Top('dict item')
@@ -465,6 +494,8 @@ def value_attr(interp, base, attr):
         return Atom(attr, [base], 'int')
     if tag == 'complex' and attr in ('real', 'imag'):
         return Atom(attr, [base], 'float')
+    if tag == 'err' and attr == 'args' and isinstance(base, Err) and base.message is not None:
+        return ListV([Const(base.message)], 'tuple')
     if tag == 'err' and attr in ('args', 'message'):
         return Top('exception attribute', ignorance=False)
     if isinstance(base, Exc):
@@ -803,12 +834,14 @@ def call_builtin(interp, name, args, kwargs):
         if short == 'namedtuple':
             return Builtin('namedtuple:' + (args[0].value if isinstance(args[0], Const) else '?'))
         if short == 'defaultdict':
-            return DictV([])
+            return DictV([], default='list' if (args and isinstance(args[0], TypeV) and args[0].name == 'list') else None)
     if name.startswith('namedtuple:'):
         return Obj(ClassV(None, ast.ClassDef(name=name.split(':')[1], bases=[], keywords=[], body=[], decorator_list=[])),
                    dict(kwargs))
-    if name == 'super':
-        raise Unmodelled('super()')
+    if name.startswith('ply.'):
+        return Top('ply object', ignorance=False)
+    if name.startswith('os.'):
+        return Top('os result', ignorance=False)
     if name in ('id', 'hash'):
         return Atom(name, args, 'int')
     raise Unmodelled('builtin %s' % name)
